@@ -103,7 +103,7 @@ func VconvDigest(data []index.Data) string {
 
 func digestIn(data []index.Data) string {
 	if len(data) == 0 {
-		return ""
+		return "empty" // same word as VerifCached uses for a cached empty output
 	}
 	c := string(data[0].Content)
 	if !strings.HasPrefix(c, "[vconv ") || len(c) < 20 || c[19] != ']' {
